@@ -56,6 +56,10 @@ P = {
  "C08": ("runtime monitor: grammar-based sentence generator with exact written values, own reference reader for printed text, exact-rational rounding contract for base/precision changes",
          "Runtime monitoring of float parsing (6 bases, all documented markers, hex-float, underscores, signs), printing without and with a precision option (4 bases x 6 modes; the printed text is read back by an independent positional reader and compared with the exact / correctly rounded value) and base changes (7 base pairs x 6 modes, exponents covering the exact, small-exponent and large-exponent branches) against the rounding contract and the target-precision rule.",
          "Underscore-only / sign-in-fraction texts are outside the documented grammar (no-panic only).", "DESIGN.md §4 C08"),
+
+ "C11": ("runtime monitor with an interval-arithmetic oracle: outward-rounded enclosures of exp/ln (own series with explicit remainder bounds, refined until the ulp test is decided), exact rationals where the true value is rational",
+         "Runtime monitoring of exp, exp_m1, ln, ln_1p, powi, powf for 6 modes x 5 bases x precisions 1..300 (thorough 3000) on arguments from B^-1000 to 2*10^4 (thorough 2*10^6), at 1 +- B^-k, in the no-scaling branches, with integer exponents up to +-1500 (thorough +-10^6) and integer-valued / tiny float exponents: the result must lie within one ulp of the enclosed true value, Exact only at rational points, unlimited precision must panic. Undecidable cases are counted as inconclusive, never as violations; the recorded known finding has a magnitude ceiling (2 ulp) and a rate ceiling (2% of evaluations).",
+         "Trusts the harness' interval exp/ln (self-tested against f64 each run, validated against mpmath at development time).", "DESIGN.md §4 C11"),
 }
 NOT_YET = "monitor not built yet in this round (design in DESIGN.md §4); no claim is made until its check exists and is silent on the unchanged tree"
 
